@@ -46,11 +46,29 @@ def rule_R1(ctx, f):
     return sites
 
 
+def _nonempty_family_filter(b, filt):
+    """`.filter(|mf| !mf.get_metric().is_empty())`: the pruning of empty families written as an adapter."""
+    if not (is_call(filt, "Iterator::filter") and len(filt[2]) == 2):
+        return False
+    c = filt[2][1]
+    cl = b.facts.closure(c[2]) if (isinstance(c, tuple) and c and c[0] == "agg" and c[1] == "closure") else None
+    if cl is None:
+        return False
+    r = cl.term_local(0)
+    neg = 0
+    while isinstance(r, tuple) and len(r) == 3 and r[0] == "unop" and r[1] == "Not":
+        r, neg = r[2], neg + 1
+    if neg % 2 != 1 or not is_call(r, ["slice::is_empty", "Vec::is_empty"]):
+        return False
+    g = peel(r[2][0])
+    return is_call(g, ["get_metric"]) and peel(g[2][0]) == ("param", 2) and len(cl.calls()) <= 3
+
+
 def _merge_loop(b):
     """(outer next call, inner next call) of the merge loops in gather."""
     outer = inner = None
     for c in b.calls_to("Iterator::next"):
-        e = elem_of(("field", ("downcast", c.result_term(), "Some"), "0"))
+        e = elem_of(("field", ("downcast", c.result_term(), "Some"), "0"), filter_ok=lambda t: _nonempty_family_filter(b, t))
         if not e:
             continue
         if e[0] == SELF_FIELD("collectors_by_id"):
@@ -69,7 +87,7 @@ def rule_R2(ctx, f):
     if not b:
         return
     ctx.saw(b)
-    sorts = b.calls_to(un.SORTS)
+    sorts = [c for c in b.calls_to(un.SORTS) if is_call(peel(c.args[0]), ["mut_metric"])]
     ctx.ob(rid, "gather|one-sort", len(sorts) == 1, "gather must sort the samples of each family exactly at one place (found %d sort calls)" % len(sorts), site=b.raw["span"]["at"])
     if len(sorts) != 1:
         return
@@ -103,7 +121,7 @@ def rule_R2(ctx, f):
     ok = len(ents) == 1 and peel(ents[0].args[0]) == bymap and is_call(bymap, "BTreeMap::new")
     if ok:
         k = peel(ents[0].args[1])
-        ei = elem_of(peel(k[2][0])) if is_call(k, ["MetricFamily::name", "get_name"]) else None
+        ei = elem_of(peel(k[2][0]), filter_ok=lambda t: _nonempty_family_filter(b, t)) if is_call(k, ["MetricFamily::name", "get_name"]) else None
         ok = bool(ei) and is_call(ei[0], "Collector::collect")
     ctx.ob(rid, "gather|by-name-btreemap", ok, "families must be merged in a BTreeMap keyed by the family's own name", site=ents[0].span if ents else b.raw["span"]["at"])
     outv = b.calls_to(["BTreeMap::into_values", "BTreeMap::into_iter", "BTreeMap::values"])
@@ -287,9 +305,9 @@ def rule_R4(ctx, f):
         ctx.ob(rid, "gather|loops", False, "merge loops not recognised", site=b.raw["span"]["at"])
         return
     eo = elem_of(("field", ("downcast", outer.result_term(), "Some"), "0"))
-    ei = elem_of(("field", ("downcast", inner.result_term(), "Some"), "0"))
+    ei = elem_of(("field", ("downcast", inner.result_term(), "Some"), "0"), filter_ok=lambda t: _nonempty_family_filter(b, t))
     ctx.ob(rid, "gather|all-collectors", eo[1] in (["into_iter", "values"], ["values"]), "all collectors must be visited: plain values() of collectors_by_id (found adapters %s)" % eo[1], site=outer.span)
-    ctx.ob(rid, "gather|all-families", [a for a in ei[1] if a != "into_iter"] == [], "all families returned by a collector must be visited (found adapters %s)" % ei[1], site=inner.span)
+    ctx.ob(rid, "gather|all-families", [a for a in ei[1] if a not in ("into_iter", "filter")] == [], "all families returned by a collector must be visited (found adapters %s)" % ei[1], site=inner.span)
     cc = b.calls_to("Collector::collect")
     ctx.ob(rid, "gather|collect-once-per-collector", len(cc) == 1 and count_range(b, [cc[0].bb])[0] >= 0 and b.dominates(cc[0].bb, inner.bb), "each collector is collected exactly once per gather", site=cc[0].span if cc else None)
     si = b.switch_info(inner.target)
@@ -308,7 +326,7 @@ def rule_R4(ctx, f):
         # without the is_empty edge every path from the loop body back to the header passes the lookup
         r = b.reach(body_entry, avoid_blocks=[ents[0].bb], avoid_edges=skip_edges)
         ok = inner.bb not in r
-    ctx.ob(rid, "gather|only-empty-skipped", ok and len(skip_edges) == 1, "a family may bypass the merge only on the `get_metric().is_empty()` edge", site=inner.span)
+    ctx.ob(rid, "gather|only-empty-skipped", ok and len(skip_edges) + ei[1].count("filter") == 1, "a family may bypass the merge only on the `get_metric().is_empty()` edge", site=inner.span)
     fam = ("field", ("downcast", inner.result_term(), "Some"), "0")
     # new name: the whole family is inserted (VacantEntry::insert(fam) or map.insert(name_of(fam), fam))
     vi = b.calls_to("VacantEntry::insert")
@@ -373,6 +391,27 @@ def rule_R5(ctx, f):
         return
     ctx.saw(cl)
     fam = ("param", 2)
+    caps = a[3]
+
+    def outer_terms(t):
+        """Subterms of t plus, for every captured variable mentioned in t, the subterms of the term captured in gather's own body."""
+        out = []
+        for s_ in subterms(t):
+            out.append(s_)
+            if isinstance(s_, tuple) and len(s_) == 3 and s_[0] == "field" and str(s_[2]).isdigit() and peel(s_[1]) == ("param", 1) and int(s_[2]) < len(caps):
+                todo, seen = [caps[int(s_[2])]], set()
+                while todo:
+                    u = todo.pop()
+                    for w in subterms(u):
+                        out.append(w)
+                        # a local of gather with several definitions (e.g. the result of an inlined helper with two returns)
+                        if isinstance(w, tuple) and len(w) == 2 and w[0] == "var" and w[1] not in seen and len(seen) < 40:
+                            seen.add(w[1])
+                            todo.extend(b.var_alts(w[1]))
+        return out
+
+    def mentions(t, fld):
+        return any(isinstance(s_, tuple) and len(s_) == 3 and s_[0] == "field" and s_[2] == fld for s_ in outer_terms(t))
     # prefix
     sn = cl.calls_to(["MetricFamily::set_name", "set_name"])
     ok = len(sn) == 1 and peel(sn[0].args[0]) == fam
@@ -409,7 +448,7 @@ def rule_R5(ctx, f):
         same = peel(tl[0].args[0]) == peel(sl[0].args[0]) and peel(ap[0].args[0]) == tl[0].result_term() and peel(sl[0].args[1]) == tl[0].result_term()
         pairs = peel(ap[0].args[1])
         src = un.enumerate_sites(f, only=lambda bb: bb.path == cl.path)
-        from_common = any(isinstance(s, tuple) and len(s) == 3 and s[0] == "field" and s[2] == "labels" for s in subterms(pairs))
+        from_common = mentions(pairs, "labels")
         ok = okm and same and from_common
     ctx.ob(rid, "labels|appended-to-every-sample", ok, "with common labels, every sample of every family must get its own labels followed by all common pairs", site=sl[0].span if sl else cl.raw["span"]["at"])
     if sl:
@@ -418,14 +457,18 @@ def rule_R5(ctx, f):
             si = cl.switch_info(bi)
             if si and cl.dominates(bi, sl[0].bb) and si[0][0] == "discr" and not is_call(peel(si[0][1], transparent=[]), "Iterator::next"):
                 guards.append(si[0])
-        ok = all(any(isinstance(s, tuple) and len(s) == 3 and s[0] == "field" and s[2] in ("labels", "prefix") for s in subterms(g)) for g in guards)
+        ok = all(mentions(g, "labels") or mentions(g, "prefix") for g in guards)
         ctx.ob(rid, "labels|unconditional", ok, "the label append may depend only on whether the registry has common labels", site=sl[0].span)
     # the closure returns the family it received
     r = cl.term_local(0)
     ctx.ob(rid, "closure|returns-family", peel(r) == fam, "the output closure must return the (modified) family itself (found %s)" % show(r), site=cl.raw["span"]["at"])
     # pair construction closure: name <- key, value <- value
     npair = 0
-    for c2 in f.closures_of(cl):
+    cands = f.closures_of(cl)
+    if not [c2 for c2 in cands if c2.calls_to(["LabelPair::set_name"])]:
+        # the pairs may be built once outside the per-family closure (in gather itself or in a helper of the registry)
+        cands = [f.bodies[k_] for k_ in f.order if "::registry::" in f.bodies[k_].path and "{closure" in f.bodies[k_].path and f.bodies[k_].path != cl.path]
+    for c2 in cands:
         sn2 = c2.calls_to(["LabelPair::set_name"])
         sv2 = c2.calls_to(["LabelPair::set_value"])
         if not sn2 and not sv2:
